@@ -1,12 +1,17 @@
 import Driver.Proto
 import CifModel.Model.Normalize
+import CifModel.Model.NormalizeBuf
 import CifModel.Gen.ErrCodes
 /- family `norm` (C09).  The request the model sees is the executor's request followed by ` | g:<x>:<NFD x>:<fold NFD x>:<NFC fold NFD x>:<NFC x> …`
    (tools/gen/norm.py `model_request`): the graph of ICU's functions on the strings involved, which instantiates the model's
    `UnicodeOps` parameter.  Tokens after `|` that do not start with `g:` are ignored.
      norm cp <x> | g…                         ↦ nm rc=0 out=<cifNormalize U x>
      norm match <block|frame|item> <a> <b> | g… ↦ nm ca= cb= gb=
-     norm map <tbl|pkt> <op>… | g…            ↦ nm <result>…                                                   -/
+     norm map <tbl|pkt> <op>… | g…            ↦ nm <result>…
+   buffer level (Model/NormalizeBuf.lean; the ICU calls are `icuOf` of the functions given by `n:<x>:<NFD x>`, `f:<y>:<fold y>`,
+   `c:<z>:<NFC z>` tokens; first-buffer guess `cGuess`, fuel 8):
+     norm buf <fn> <z|n> <srclen> <mem> | n… f… c… ↦ nb rc= len= cap= out= term= tr=<trace>
+     norm icu <nfd|nfc|fold> <cap> <x> | <t>:<x>:<f x> ↦ ic len= st= w= nul= guard=                                  -/
 namespace Driver.Fam.Norm
 open Driver CifModel CifModel.Model CifModel.Gen.ErrCodes
 
@@ -30,6 +35,9 @@ def addToken (g : Graph) (tok : String) : Option Graph :=
       let x ← unhex x; let d ← unhex d; let f ← unhex f; let c ← unhex c; let nx ← unhex nx
       pure { nfd := (x, d) :: g.nfd, fold := (d, f) :: g.fold, nfc := (f, c) :: (x, nx) :: g.nfc }
   | "g" :: _ => none
+  | ["n", x, y] => do let x ← unhex x; let y ← unhex y; pure { g with nfd := (x, y) :: g.nfd }
+  | ["f", x, y] => do let x ← unhex x; let y ← unhex y; pure { g with fold := (x, y) :: g.fold }
+  | ["c", x, y] => do let x ← unhex x; let y ← unhex y; pure { g with nfc := (x, y) :: g.nfc }
   | _ => some g
 
 def parseGraph (toks : List String) : Option Graph := toks.foldlM addToken {}
@@ -84,6 +92,65 @@ def runMap (U : UnicodeOps) (isTbl : Bool) (ops : List String) : Option String :
   let (_, out) ← ops.foldlM step (([] : Entries Str), ([] : List String))
   pure (" ".intercalate ("nm" :: out.reverse))
 
+
+/-! ### buffer level -/
+open CifModel.Model.NormBuf in
+def showStatus : IcuStatus → String
+  | .zero => "z" | .notTerminated => "w" | .overflow => "o" | .failure => "e"
+
+open CifModel.Model.NormBuf in
+def showEv : Ev → String
+  | .malloc n => s!"m{n}" | .realloc n => s!"r{n}" | .free => "f" | .icu cap len st => s!"i{cap}:{len}:{showStatus st}"
+
+open CifModel.Model.NormBuf in
+def showTrace (t : List Ev) : String := if t.isEmpty then "-" else ",".intercalate (t.map showEv)
+
+open CifModel.Model.NormBuf in
+def showErr : Err → String
+  | .oobWrite => "MODEL:oobWrite" | .oobRead => "MODEL:oobRead" | .fuel => "MODEL:fuel" | .code c => s!"rc={c} len=- cap=- out=~ term=-"
+
+open CifModel.Model.NormBuf in
+def runBuf (U : UnicodeOps) (fn mode lenArg : String) (units : Str) : Option String := do
+  let srclen ← lenArg.toInt?
+  let z ← if mode == "z" then some true else if mode == "n" then some false else none
+  let mem := if z then units ++ [0] else units
+  -- the preconditions the executor enforces as well
+  if srclen ≥ 0 then (if srclen.toNat > mem.length then none else some ()) else (if mem.contains 0 then some () else none)
+  let I := IcuOps.of U
+  let fuel := 8
+  let stage (r : Res (Buf × Nat)) : String :=
+    match r with
+    | (t, .ok (b, n)) =>
+      let term := decide (n < b.data.length) && (b.data.getD n 1 == 0)
+      s!"nb rc=0 len={n} cap={b.cap} out={hex (b.data.take n)} term={boolStr term} tr={showTrace t}"
+    | (t, .error e) => s!"nb {showErr e} tr={showTrace t}"
+  let whole (want : Bool) (r : Res Buf) : String :=
+    match r with
+    | (t, .ok b) => if want then s!"nb rc=0 len=- cap={b.cap} out={hex b.cstr} term=- tr={showTrace t}"
+                    else s!"nb rc=0 len=- cap=- out=~ term=- tr={showTrace t}"
+    | (t, .error e) => s!"nb {showErr e} tr={showTrace t}"
+  match fn with
+  | "nfd0" => pure (stage (unicodeNormalize I.nfd cGuess mem srclen false fuel))
+  | "nfd1" => pure (stage (unicodeNormalize I.nfd cGuess mem srclen true fuel))
+  | "nfc0" => pure (stage (unicodeNormalize I.nfc cGuess mem srclen false fuel))
+  | "nfc1" => pure (stage (unicodeNormalize I.nfc cGuess mem srclen true fuel))
+  | "fold" => pure (stage (foldCase I.fold cGuess mem srclen fuel))
+  | "norm" => pure (whole true (cifNormalizeBuf I cGuess mem srclen true fuel))
+  | "norm0" => pure (whole false (cifNormalizeBuf I cGuess mem srclen false fuel))
+  | "name" => if mem.contains 0 then pure (whole true (normalizeNameBuf I cGuess false (some mem) srclen CIF_INVALID_BLOCKCODE true fuel)) else none
+  | "item" => if mem.contains 0 then pure (whole true (normalizeNameBuf I cGuess true (some mem) srclen CIF_INVALID_ITEMNAME true fuel)) else none
+  | "tbl" => if mem.contains 0 then pure (whole true (normalizeTableIndexBuf I cGuess (some mem) srclen CIF_INVALID_INDEX true fuel)) else none
+  | _ => none
+
+open CifModel.Model.NormBuf in
+def runIcu (U : UnicodeOps) (fn capArg : String) (x : Str) : Option String := do
+  let cap ← capArg.toNat?
+  let f ← match fn with | "nfd" => some U.nfd | "nfc" => some U.nfc | "fold" => some U.fold | _ => none
+  let r := icuOf f x cap
+  let w := if r.status == .overflow || r.status == .failure then "*" else hex (r.written.take r.len)
+  let nul := if r.status == .zero then boolStr (r.written.getD r.len 1 == 0) else "-"
+  pure s!"ic len={r.len} st={showStatus r.status} w={w} nul={nul} guard={boolStr (decide (r.written.length ≤ cap))}"
+
 def handle : Handler := fun args =>
   let (req, rest) := args.span (· != "|")
   match parseGraph (rest.drop 1) with
@@ -99,6 +166,12 @@ def handle : Handler := fun args =>
         runMatch U kind a b
     | "map" :: "tbl" :: ops => runMap U true ops
     | "map" :: "pkt" :: ops => runMap U false ops
+    | ["buf", fn, mode, len, h] => do
+        let m ← unhex h
+        runBuf U fn mode len m
+    | ["icu", fn, cap, h] => do
+        let x ← unhex h
+        runIcu U fn cap x
     | _ => none
 
 end Driver.Fam.Norm
